@@ -353,7 +353,8 @@ def isCut (x : TokX) : Bool :=
   x.cut && (x.tok.kind != .text || (x.ctx != [] && x.ctx != htmlPlaintext))
 
 /-- the tokens before the first cut one, and the cut one with whatever follows it -/
-def cutSplit (xs : List TokX) : List TokX × List TokX := xs.span fun x => !isCut x
+def cutSplit (xs : List TokX) : List TokX × List TokX :=
+  (xs.takeWhile fun x => !isCut x, xs.dropWhile fun x => !isCut x)
 
 def toksOf (xs : List TokX) : List Tok := xs.map (·.tok)
 
